@@ -630,6 +630,22 @@ def dot(a, b):
     if c.fmodel == "REAL":
         m = SF(z3.Real(nm))
         c.assume(z3.And(NINF < m.r, m.r < PINF))
+        if isinstance(a, SV) and isinstance(b, SV) and a.kind == "f" and b.kind == "f":
+            # sign facts of a sum of products (linear formulation): all terms >= 0 => dot >= 0; moreover some term > 0 => dot > 0
+            fa, fb = a.at, b.at
+            nonneg = lambda i: z3.Or(z3.And(fa(i).r >= 0, fb(i).r >= 0), z3.And(fa(i).r <= 0, fb(i).r <= 0))
+            pos = lambda i: z3.Or(z3.And(fa(i).r > 0, fb(i).r > 0), z3.And(fa(i).r < 0, fb(i).r < 0))
+            nonpos = lambda i: z3.Or(z3.And(fa(i).r >= 0, fb(i).r <= 0), z3.And(fa(i).r <= 0, fb(i).r >= 0))
+            all_nonneg = _forall(a, nonneg)
+            all_nonpos = _forall(a, nonpos)
+            w = z3.Int(c.fresh_name("vcx_i"))
+            c.assume(z3.Implies(all_nonneg, m.r >= 0))
+            c.assume(z3.Implies(all_nonpos, m.r <= 0))
+            with QScope(c, w) as qs:
+                body = z3.Implies(z3.And(all_nonneg, a.indom(w), pos(w)), m.r > 0)
+            c.assume(z3.ForAll([w], z3.And(qs.conj(), body)))
+            if a is b:
+                c.assume(m.r >= 0)
     else:
         m = SF(z3.Real(nm), z3.Bool(nm + "?nan"), True)
         c.assume(z3.And(NINF <= m.r, m.r <= PINF))
